@@ -4,6 +4,7 @@ packages (by parsing their sources, never importing), constant tables.
 Nothing here executes GemClus or its dependencies.
 """
 import ast
+import copy
 import glob
 import hashlib
 import os
@@ -26,12 +27,198 @@ def site_packages():
     return cands[-1]
 
 
+_FLIPOP = {ast.Gt: ast.Lt, ast.GtE: ast.LtE, ast.Lt: ast.Gt, ast.LtE: ast.GtE}
+
+
+def _simple(e):
+    return isinstance(e, (ast.Name, ast.Attribute)) or (isinstance(e, ast.Constant) and isinstance(e.value, (int, float)) and not isinstance(e.value, bool)) \
+        or (isinstance(e, ast.Subscript) and isinstance(e.value, (ast.Name, ast.Attribute))) or (isinstance(e, ast.Call) and isinstance(e.func, ast.Name) and e.func.id == "len")
+
+
+def _is_num(e):
+    return isinstance(e, ast.Constant) and isinstance(e.value, (int, float)) and not isinstance(e.value, bool)
+
+
+class _Canon(ast.NodeTransformer):
+    """spelling-insensitive form used for every textual comparison of the rules:
+       a > b -> b < a ; a >= b -> b <= a (one orientation of every order comparison; == / != operands sorted)
+       numeric constant first in a product, last in a sum; two simple operands of * sorted
+       x.shape[0] -> len(x) for a name x"""
+
+    def visit_Compare(self, n):
+        n = self.generic_visit(n)
+        if len(n.ops) == 1:
+            op = type(n.ops[0])
+            l, r = n.left, n.comparators[0]
+            if op in (ast.Gt, ast.GtE):
+                return ast.Compare(left=r, ops=[_FLIPOP[op]()], comparators=[l])
+            if op in (ast.Eq, ast.NotEq) and not (isinstance(r, ast.Constant)) and (isinstance(l, ast.Constant) or ast.unparse(l) > ast.unparse(r)):
+                return ast.Compare(left=r, ops=[op()], comparators=[l])
+        return n
+
+    def visit_BinOp(self, n):
+        n = self.generic_visit(n)
+        l, r = n.left, n.right
+        if isinstance(n.op, ast.Mult) and _simple(l) and _simple(r):
+            if (_is_num(r) and not _is_num(l)) or (not _is_num(l) and not _is_num(r) and ast.unparse(l) > ast.unparse(r)):
+                return ast.BinOp(left=r, op=n.op, right=l)
+        if isinstance(n.op, ast.Add) and _is_num(l) and _simple(r) and not _is_num(r):
+            return ast.BinOp(left=r, op=n.op, right=l)
+        if isinstance(n.op, ast.Add) and _simple(l) and _simple(r) and not _is_num(l) and not _is_num(r) and ast.unparse(l) > ast.unparse(r):
+            return ast.BinOp(left=r, op=n.op, right=l)
+        return n
+
+    _DUAL = {"argmax", "argmin", "sum", "mean", "max", "min", "prod", "cumsum"}
+    _AXIS1 = {"argmax", "argmin", "sum", "mean", "max", "min", "prod", "cumsum"}
+
+    def visit_Call(self, n):
+        n = self.generic_visit(n)
+        f = n.func
+        if isinstance(f, ast.Attribute) and isinstance(f.value, ast.Name) and f.value.id in ("np", "numpy") and n.args:
+            if f.attr in ("dot", "matmul") and len(n.args) == 2 and not n.keywords:
+                return ast.BinOp(left=n.args[0], op=ast.MatMult(), right=n.args[1])
+            if f.attr == "logical_not" and len(n.args) == 1:
+                return ast.UnaryOp(op=ast.Invert(), operand=n.args[0])
+            if f.attr in self._DUAL and not isinstance(n.args[0], (ast.List, ast.ListComp, ast.GeneratorExp, ast.Tuple, ast.Constant)):
+                n = ast.Call(func=ast.Attribute(value=n.args[0], attr=f.attr, ctx=ast.Load()), args=n.args[1:], keywords=n.keywords)
+        f = n.func
+        if isinstance(f, ast.Attribute) and f.attr in self._AXIS1 and not n.args and not (isinstance(f.value, ast.Name) and f.value.id in ("np", "numpy")):
+            ax = [k for k in n.keywords if k.arg == "axis"]
+            if ax:
+                n = ast.Call(func=f, args=[ax[0].value], keywords=[k for k in n.keywords if k.arg != "axis"])
+        if isinstance(f, ast.Attribute) and f.attr == "dot" and len(n.args) == 1 and not n.keywords and not (isinstance(f.value, ast.Name) and f.value.id in ("np", "numpy")):
+            return ast.BinOp(left=f.value, op=ast.MatMult(), right=n.args[0])
+        return n
+
+    def visit_Assign(self, n):
+        n = self.generic_visit(n)
+        if len(n.targets) == 1 and isinstance(n.targets[0], ast.Name) and isinstance(n.value, ast.BinOp) and isinstance(n.value.op, (ast.Add, ast.Sub, ast.Mult, ast.Div)):
+            t = n.targets[0].id
+            l, r = n.value.left, n.value.right
+            if isinstance(l, ast.Name) and l.id == t:
+                return ast.AugAssign(target=n.targets[0], op=n.value.op, value=r)
+            if isinstance(r, ast.Name) and r.id == t and isinstance(n.value.op, (ast.Add, ast.Mult)):
+                return ast.AugAssign(target=n.targets[0], op=n.value.op, value=l)
+        return n
+
+    def visit_Subscript(self, n):
+        n = self.generic_visit(n)
+        if isinstance(n.value, ast.Attribute) and n.value.attr == "shape" and isinstance(n.value.value, ast.Name) and isinstance(n.slice, ast.Constant) and n.slice.value == 0 \
+                and isinstance(getattr(n, "ctx", None), ast.Load):
+            return ast.Call(func=ast.Name(id="len", ctx=ast.Load()), args=[n.value.value], keywords=[])
+        return n
+
+
+_CANON = _Canon()
+
+
+_NS_LIT = {}
+
+
+def _canon_literal(text):
+    r = _NS_LIT.get(text)
+    if r is None:
+        try:
+            try:
+                t = ast.parse(text, mode="eval")
+            except SyntaxError:
+                t = ast.parse(text)
+            r = re.sub(r"\s+", " ", ast.unparse(ast.fix_missing_locations(_CANON.visit(t)))).strip()
+        except Exception:
+            r = text
+        _NS_LIT[text] = r
+    return r
+
+
+class NS(str):
+    """canonical source text. Compared with a plain string, the plain string is first brought to the same canonical spelling, so
+    that the literals written in the rules need not anticipate the orientation of a comparison or the order of a product."""
+    __slots__ = ()
+
+    def __eq__(self, other):
+        if isinstance(other, str) and not isinstance(other, NS):
+            other = _canon_literal(other)
+        return str.__eq__(self, other)
+
+    def __ne__(self, other):
+        return not self.__eq__(other)
+
+    def __contains__(self, item):
+        if str.__contains__(self, item):
+            return True
+        if isinstance(item, str):
+            c = _canon_literal(item)
+            return c != item and str.__contains__(self, c)
+        return False
+
+    def startswith(self, prefix, *a):
+        if str.startswith(self, prefix, *a):
+            return True
+        if isinstance(prefix, str):
+            c = _canon_literal(prefix)
+            return c != prefix and str.startswith(self, c, *a)
+        return False
+
+    __hash__ = str.__hash__
+
+
 def norm_src(node):
-    """Normalised statement text (position independent)."""
+    """Normalised statement text (position independent, insensitive to the orientation of comparisons, the order of the operands of
+    simple products, constants in sums, and len(x) / x.shape[0])."""
+    cached = getattr(node, "_ns", None)
+    if cached is not None:
+        return NS(cached)
     try:
-        return re.sub(r"\s+", " ", ast.unparse(node)).strip()
+        raw = ast.unparse(node)
+        try:
+            fresh = ast.parse(raw, mode="eval") if isinstance(node, ast.expr) else ast.parse(raw)
+            c = ast.fix_missing_locations(_CANON.visit(fresh))
+            r = re.sub(r"\s+", " ", ast.unparse(c)).strip()
+        except SyntaxError:
+            r = re.sub(r"\s+", " ", raw).strip()
+        try:
+            node._ns = r
+        except Exception:
+            pass
+        return NS(r)
     except Exception:
-        return ast.dump(node)
+        try:
+            return re.sub(r"\s+", " ", ast.unparse(node)).strip()
+        except Exception:
+            return ast.dump(node)
+
+
+def canon_node(node):
+    """the canonical AST of an expression (fresh nodes, positions copied from the original where possible)"""
+    c = getattr(node, "_cn", None)
+    if c is None:
+        try:
+            c = ast.parse(str(norm_src(node)), mode="eval").body
+            for x in ast.walk(c):
+                x.lineno = getattr(node, "lineno", 0)
+                x.col_offset = getattr(node, "col_offset", 0)
+                x.end_lineno = getattr(node, "end_lineno", 0)
+                x.end_col_offset = getattr(node, "end_col_offset", 0)
+            for x in ast.walk(c):
+                for y in ast.iter_child_nodes(x):
+                    y._parent = x
+            c._parent = getattr(node, "_parent", None)
+        except SyntaxError:
+            c = node
+        try:
+            node._cn = c
+        except Exception:
+            pass
+    return c
+
+
+def ns(text):
+    """canonical spelling of a source fragment (for literals the rules compare with)"""
+    try:
+        t = ast.parse(text, mode="eval").body
+    except SyntaxError:
+        t = ast.parse(text).body[0]
+    return norm_src(t)
 
 
 class Unit:
@@ -207,7 +394,10 @@ class ProgramModel:
                     tree = ast.parse(src)
                 except SyntaxError as e:
                     raise AnalysisError(f"cannot parse {rel}: {e}")
+                from .renames import undo_renames
+                renamed = undo_renames(tree, rel)
                 self.units[mod] = Unit(mod, p, src, tree)
+                self.units[mod].renamed_locals = renamed
         if not self.units:
             raise AnalysisError("no units parsed")
 
